@@ -31,6 +31,7 @@ def dispatch (l : Line) : List Verdict :=
   | "route" => handleRoute l
   | "guard" => handleGuard l
   | "errpage" => handleErrPage l
+  | "proxyown" => handleProxyOwn l
   | "cors" => handleCors l
   | "proxycmds" => handleProxyCmds l
   | "ssocookie" => handleSsoCookie l
